@@ -4,11 +4,15 @@ VERIF = os.path.dirname(os.path.dirname(os.path.abspath(__file__)))
 
 CHECKS = {
     "C17": dict(
-        text="Coq model of StringParser/isFalse/string functions/if-expression evaluation; theorems (unbounded): single-quote "
-             "and backslash protection in every delimiter context, infix condition == function-call form, string order is a "
-             "strict total order. Tie: every run evaluates the model (vm_compute) and bob.stringparser from /repo on the same "
-             "rendered ASTs, raw strings and if-expressions; an independent evaluator of the documented semantics is the "
-             "failing-input oracle.",
+        text="Coq models of StringParser/isFalse/string functions/if-expression evaluation: a transliteration of the recursive "
+             "descent (Model.v) and a character-level pushdown machine (Machine.v), proved equal on every input with fuel "
+             "adequacy (parse_is_parseM, fuel_enough), and the documented language as an AST with value and rendering (Spec.v). "
+             "Theorems (unbounded): every expression tree of the documented grammar, rendered, parses to its documented value - "
+             "errors and laziness of untaken branches included, in any surrounding context (parse_render); totality; single-"
+             "quote and backslash protection in every delimiter context; infix condition == function-call form; string order is "
+             "a strict total order. Tie: every run evaluates both models and the Coq specification (vm_compute) and "
+             "bob.stringparser from /repo on the same rendered ASTs, raw strings and if-expressions (full and minimal "
+             "parentheses); an independent evaluator of the documented semantics is the failing-input oracle.",
         note="trusted: Coq kernel, vm_compute, harness generators/literal printer, constants translator; re/fnmatch functions "
              "and the pyparsing grammar are exercised on the implementation only",
         technique="Coq proof (induction over token scanner / expression AST) + model-vs-implementation correspondence",
@@ -231,7 +235,8 @@ CHECKS["C07"] = dict(
          "content-hash verification), the download-tried flag, live build-id prediction with restart, over an abstract archive. "
          "Unbounded theorems (mutual induction over the package tree): download_equals_local for every download configuration "
          "under an honest archive, other_workspace_zero_builds, wrong predictions restart at most n_srcs+1 times and converge, "
-         "mismatch/no-audit never accepted; the Build-Id side imports Ids/: equal Build-Ids => equal platform/script/tools/vars/"
+         "mismatch/no-audit never accepted; checkout state is keyed by the checkout step (packages sharing one checkout, "
+         "hypothesis src_consistent, checked by the harness on every tree); the Build-Id side imports Ids/: equal Build-Ids => equal platform/script/tools/vars/"
          "argument ids or an explicit collision (weak-tool name ambiguity stated). Tie: two real workspaces at different paths "
          "sharing a file archive, all download modes, tampering, emulated host fingerprints; decisions, state kinds and dist "
          "trees compared with the model and with a local clean build.",
